@@ -1,14 +1,21 @@
 #!/bin/sh
-# tools/seed_pipeline.sh C07 [extra check ids...]: confirm /tmp/seed/out-C07/{A,B}, then run the
-# property's own check (quick tier, seeds 1 and 2) against each confirmed change in a scratch worktree.
+# tools/seed_pipeline.sh C07 [extra check ids...]: confirm $SEED_ROOT/out-C07/{A,B} (default /tmp/seed),
+# then run the property's own check (quick tier, seeds 1 and 2) against each confirmed change in a
+# scratch worktree. SEED_NAMES="C D" stores A and B under those letters (second round).
 id=$1; shift
+root=${SEED_ROOT:-/tmp/seed}
+set -- $id "$@"
+names=${SEED_NAMES:-A B}
+na=$(echo $names | cut -d' ' -f1); nb=$(echo $names | cut -d' ' -f2)
 cd "$(dirname "$0")/.."
 for v in A B; do
-  src=/tmp/seed/out-$id/$v
+  src=$root/out-$id/$v
   [ -f $src/patch.diff ] || continue
-  name=$id-$v
+  if [ $v = A ]; then name=$id-$na; else name=$id-$nb; fi
   if [ ! -f seeded/$name/meta.json ]; then
-    python3 tools/seed_confirm.py $src $name --property $id > /tmp/seed/confirm-$name.log 2>&1 || { echo "$name NOT-CONFIRMED (see /tmp/seed/confirm-$name.log)"; continue; }
+    python3 tools/seed_confirm.py $src $name --property $id > $root/confirm-$name.log 2>&1 || { echo "$name NOT-CONFIRMED (see $root/confirm-$name.log)"; continue; }
   fi
-  python3 tools/seedtest.py seeded/$name/patch.diff --seeds 1,2 --json seeded/$name/detection.json $id "$@" 2>&1 | grep -E "^(CAUGHT|quiet|INCONCLUSIVE|PATCH)" | sed "s/^/$name: /"
+  python3 tools/seedtest.py seeded/$name/patch.diff --seeds 1,2 --json $root/detect-$name.json "$@" 2>&1 | grep -E "^(CAUGHT|quiet|INCONCLUSIVE|PATCH)" | sed "s/^/$name: /"
+  # what the checks caught unprepared, before anything was changed because of this seeded change
+  [ -f seeded/$name/first_pass.json ] || cp $root/detect-$name.json seeded/$name/first_pass.json 2>/dev/null
 done
